@@ -228,7 +228,10 @@ class MappingStorage:
                 oid = to_copy.pop()
                 if oid in new_data:
                     continue
-                tid_data = self._data.pop(oid)
+                # Nothing is changed before the sweep is complete: a
+                # reference to a missing object (KeyError) must not leave
+                # the storage half collected.
+                tid_data = self._data[oid]
                 new_data[oid] = tid_data
                 for pickle in tid_data.values():
                     for oid in referencesf(pickle):
@@ -238,6 +241,8 @@ class MappingStorage:
 
             # Remove left over data from transactions
             for oid, tid_data in self._data.items():
+                if oid in new_data:
+                    continue
                 for tid in tid_data:
                     if transactions[tid].pack(oid):
                         del transactions[tid]
